@@ -16,7 +16,9 @@ SubstClauses == {sv \o c \o t : c \in {<<SP, LPAREN, GT, EQ, SP, 49, DOT, 48, RP
                 \* blanks before the closing bracket of a version clause, one bracket too many, empty profile groups
                 \cup {foo \o <<SP, LPAREN, GT, EQ, SP, 49, DOT, 48>> \o t : t \in {<<SP, RPAREN>>, <<SP, RPAREN, RPAREN>>, <<SP, SP, RPAREN>>, <<RPAREN, RPAREN>>, <<TAB, RPAREN>>, <<SP, 50, RPAREN>>}}
                 \cup {foo \o <<SP, LT, GT>>, foo \o <<SP, LT, SP, GT>>, foo \o <<SP, LT, 115, GT, SP, LT, SP, GT, SP, LT, BANG, 99, GT>>, foo \o <<SP, LT, BANG, GT>>}
-Degenerate == {foo \o <<SP, LBRACK, HYPHEN, HYPHEN, RBRACK>>, foo \o <<SP, LBRACK, HYPHEN, HYPHEN, SP>> \o amd64 \o <<RBRACK>>,
+Degenerate == {foo \o <<SP, LBRACK>> \o bGnu \o <<HYPHEN>> \o bLinux \o <<HYPHEN, RBRACK>>, foo \o <<COLON>> \o bGnu \o <<HYPHEN>> \o bLinux \o <<HYPHEN>>,
+               foo \o <<SP, LBRACK>> \o bGnu \o <<HYPHEN>> \o bLinux \o <<HYPHEN, SP>> \o amd64 \o <<RBRACK>>,
+               foo \o <<SP, LBRACK, HYPHEN, HYPHEN, RBRACK>>, foo \o <<SP, LBRACK, HYPHEN, HYPHEN, SP>> \o amd64 \o <<RBRACK>>,
                foo \o <<COLON, HYPHEN, HYPHEN>>, foo \o <<SP, LBRACK, HYPHEN, RBRACK>>, foo \o <<SP, LBRACK, BANG, HYPHEN, HYPHEN, RBRACK>>,
                foo \o <<SP, LBRACK>> \o amd64 \o <<HYPHEN, HYPHEN, RBRACK>>} \cup SubstClauses
 \* two names with nothing but white space between them (no comma, no bar), alone and after a proper entry; a name
@@ -38,7 +40,7 @@ ArchNames == Comps8 \cup {a \o <<HYPHEN>> \o c : a \in Comps8, c \in Comps8}
              \cup {a \o <<HYPHEN>> \o o \o <<HYPHEN>> \o c : a \in Comps8, o \in Comps8, c \in Comps8}
 Comps4 == {bAny, bGnu, bLinux, amd64}
 ArchNames4 == {a \o <<HYPHEN>> \o o \o <<HYPHEN>> \o c \o <<HYPHEN>> \o e : a \in Comps4, o \in Comps4, c \in Comps4, e \in Comps4}
-CompsE == {<<>>, bAny, amd64}
+CompsE == {<<>>, bAny, amd64, bGnu, bLinux}          \* (gnu-linux-<empty> is the one the bare-CPU short form must not be used for)
 ArchNamesE == {a \o <<HYPHEN>> \o c : a \in CompsE, c \in CompsE} \cup {a \o <<HYPHEN>> \o o \o <<HYPHEN>> \o c : a \in CompsE, o \in CompsE, c \in CompsE}
 ArchVecs == {[k |-> "arch_rt", name |-> n] : n \in ArchNames \cup ArchNames4 \cup ArchNamesE}
 
